@@ -270,7 +270,7 @@ fn sequences(alpha: &[Call], depth: usize) -> Vec<Vec<Call>> {
 pub fn run(opts: &Opts) -> i32 {
     let rep = Report::new("C08", "model_checking", opts);
     rep.set("exhaustive", true);
-    rep.set("rule", "every sequence of exactly d calls over {add_version(parent in nil/latest/first/unknown; payload small, empty, all 256 byte values, 300 KB), get_child_version(nil / each known version / unknown), add_snapshot(latest / first), get_snapshot, re-open} from 1-2 handles, executed on a fresh instance of each backend (local; git local-only; git with a shared bare remote and two clones; real CloudServer over the in-memory object store; real HTTP client against a harness server written from docs/http.md) in lock step with the reference chain model; non-trivial = sequences in which a version was rejected");
+    rep.set("rule", "every sequence of exactly d calls over {add_version(parent in nil/latest/first/unknown; payload small, empty, all 256 byte values, 300 KB), get_child_version(nil / each known version / unknown), add_snapshot(latest / first), get_snapshot, re-open} from 1-2 handles, executed on a fresh instance of each backend (local; git local-only; git with a shared bare remote and two clones; real CloudServer over the in-memory object store; real HTTP client against a harness server written from docs/http.md) in lock step with the reference chain model; plus, for the object store, 2-3 handles whose first calls race on a brand-new store (every interleaving of their requests, salt creation included); non-trivial = sequences in which a version was rejected");
     rep.assume("HTTP: harness server implements docs/src/http.md; object store: in-memory Service; LocalServer::add_snapshot is unreachable!() by design and outside the alphabet for that backend");
     let q = opts.tier == Tier::Quick;
     let plan: Vec<(BackendKind, usize)> = vec![
@@ -282,6 +282,17 @@ pub fn run(opts: &Opts) -> i32 {
         (BackendKind::GitRemoteFresh, 0),
     ];
     let only = std::env::var("TCMC_BACKEND").ok();
+    if only.is_none() {
+        // object store, several handles whose very first call races for the creation of the salt
+        // object of a brand-new store: all interleavings of their requests (engine of C09)
+        let (n, vs) = super::c09::first_connect(opts.tier);
+        rep.add("first_connect_schedules", n);
+        rep.add("traces_validated_against_impl", n);
+        for v in vs {
+            rep.violation(v);
+        }
+        println!("[C08] Cloud, brand-new store, 2-3 handles connecting at once: {n} schedules ({:.1}s)", rep.elapsed());
+    }
     for (kind, depth) in plan {
         if only.as_ref().is_some_and(|o| format!("{kind:?}") != *o) {
             continue;
